@@ -489,6 +489,51 @@ theorem sim_tokens (P : Phs) : ∀ (s : Bytes) (k : Nat),
           cases P[i]? <;> rfl
         rw [e]
 
+/-! #### the Handler glue: activations are independent of each other's queries -/
+
+theorem tmplAfter_append (t : Bytes) (pre : List Act) (a : Act) :
+    tmplAfter t (pre ++ [a]) = tmplAfterAct (tmplAfter t pre) a := by
+  induction pre generalizing t with
+  | nil => rfl
+  | cons b r ih => simp only [List.cons_append, tmplAfter]; exact ih _
+
+theorem histRuns_append (t : Bytes) (ms : List Bytes) (pre : List Act) (a : Act) :
+    histRuns t ms (pre ++ [a]) = histRuns t ms pre ++ [actRuns (tmplAfter t pre) ms a] := by
+  induction pre generalizing t with
+  | nil => rfl
+  | cons b r ih => simp only [List.cons_append, histRuns, tmplAfter, ih]
+
+/-- the template in force depends on the reloads only, never on a query -/
+theorem tmplAfter_queries (t : Bytes) : ∀ (h h' : List Act), h.map (·.reload) = h'.map (·.reload) →
+    tmplAfter t h = tmplAfter t h' := by
+  intro h
+  induction h generalizing t with
+  | nil => intro h' e; cases h' with | nil => rfl | cons _ _ => cases e
+  | cons a r ih =>
+    intro h' e
+    cases h' with
+    | nil => cases e
+    | cons a' r' =>
+      simp only [List.map_cons, List.cons.injEq] at e
+      simp only [tmplAfter, tmplAfterAct, e.1]
+      exact ih _ r' e.2
+
+/-- **State-free across activations.** What the k-th activation hands to the source is computed from the
+template in force and ITS query; two histories that differ only in the queries (and retries) of EARLIER
+activations give the same result for the last one. -/
+theorem activation_independent (t : Bytes) (ms : List Bytes) (pre pre' : List Act) (a : Act)
+    (h : pre.map (·.reload) = pre'.map (·.reload)) :
+    (histRuns t ms (pre ++ [a])).getLast? = (histRuns t ms (pre' ++ [a])).getLast? := by
+  rw [histRuns_append, histRuns_append, tmplAfter_queries t pre pre' h]
+  simp
+
+/-- without reloads every run of the k-th activation is `resolveSource template matches query_k` -/
+theorem activation_runs (t : Bytes) (ms : List Bytes) (a : Act) (h : a.reload = none) :
+    ∀ r ∈ actRuns t ms a, r = resolveSource t ms a.query := by
+  intro r hr
+  simp only [actRuns, tmplAfterAct, h, Option.getD_none, List.mem_cons, List.mem_replicate] at hr
+  rcases hr with rfl | ⟨_, rfl⟩ <;> rfl
+
 /-! #### samples (tests, not theorems) -/
 
 -- `a$G1:$G2?$MTX_QUERY` with two groups is a delimited template (hypotheses are satisfiable) …
